@@ -163,6 +163,7 @@ Proof.
   - c02_nodebit H Hlt.
   - c02_nodebit H Hlt.
   - c02_nodebit H Hlt.
+  - (* AIbcRelayFailing: never executes *) destruct cap; discriminate H.
 Qed.
 
 Lemma c02_wd_bridge_eq s1 s x : bridge s1 = bridge s -> withdrawer_of s1 x = withdrawer_of s x.
@@ -182,7 +183,9 @@ Proof.
   destruct (fst ca) eqn:Ea;
     try (apply bind_ok in H; destruct H as [s2 [He H]]; inversion H; subst; clear H;
          split; [exact Hp|]; right; split; [intros; discriminate|exact He]).
-  inversion H; subst; clear H. split; [exact Hp|]. left. eauto.
+  - inversion H; subst; clear H. split; [exact Hp|]. left. eauto.
+  - exfalso. destruct (execute_action s1 signer tx idx ca) as [s2|e] eqn:E; [|discriminate H].
+    exact (execute_relay_failing_never_ok _ _ _ _ _ _ _ Ea E).
 Qed.
 
 Lemma debit_needs_authority : stmt_debit_needs_authority.
@@ -246,6 +249,7 @@ Proof.
   - c02_same H.
   - c02_same H.
   - c02_same H.
+  - (* AIbcRelayFailing: never executes *) try destruct cap; congruence.
 Qed.
 
 Lemma c02_pfe_bridge_same s signer tx idx ca s' evs :
@@ -493,6 +497,7 @@ Proof.
     c02_holder Hm Hs. injection H as <-. c02_priv_finish Hs.
   - (* AValUpdate *)
     c02_holder Hm Hs. destruct (power =? 0); injection H as <-; c02_priv_finish Hs.
+  - (* AIbcRelayFailing: never executes *) try destruct cap; congruence.
 Qed.
 
 Lemma privileged_write_needs_holder : stmt_privileged_write_needs_holder.
